@@ -171,13 +171,13 @@ func (s scen) make(last **World) (func(), func(*vs.Result) *driver.Fail) {
 			if s.cbErr {
 				if vs.ChooseAt(2, vs.KFault, kind+"("+nm+")") == 1 {
 					cbInjected = fmt.Errorf("callback %s(%s): %w", kind, nm, ErrInjected)
-					w.Trace = append(w.Trace, kind+":"+nm+":ERR")
+					w.Log(kind + ":" + nm + ":ERR")
 					return cbInjected
 				}
 			} else {
 				vs.Pt(kind + "(" + nm + ")")
 			}
-			w.Trace = append(w.Trace, kind+":"+nm)
+			w.Log(kind + ":" + nm)
 			return nil
 		}
 	}
